@@ -112,7 +112,7 @@ impl Prop for C03 {
         "C03"
     }
     fn cases(&self, ctx: &Ctx) -> u64 {
-        ctx.tier.pick(1200, 40_000)
+        ctx.tier.pick(8000, 100_000)
     }
     fn rule(&self) -> &'static str {
         "well-formed inputs (data-test seeds incl. their expected outputs, grammar programs in decorated layouts) x sampled configurations, plus widths chosen adversarially around the widest line of F(x) (max, max-1, max+1); oracle: F(F(x)) == F(x) and F(F(F(x))) == F(F(x)) byte for byte. Non-trivial: F(x) != x and F(x) has >= 3 lines; distinct by hash of (F(x), configuration)."
